@@ -94,6 +94,7 @@ class CreatePredictorBase(ASTNode):
         order_by_str = f'ORDER BY {", ".join([out.to_string() for out in self.order_by])} ' if self.order_by else ''
         group_by_str = f'GROUP BY {", ".join([out.to_string() for out in self.group_by])} ' if self.group_by else ''
         window_str = f'WINDOW {self.window} ' if self.window is not None else ''
+        # HORIZON is printed last: directly after the PREDICT list the grammar reads the word as a column alias
         horizon_str = f'HORIZON {self.horizon} ' if self.horizon is not None else ''
         using_str = ''
         if self.using:
@@ -130,8 +131,8 @@ class CreatePredictorBase(ASTNode):
                   f'{order_by_str}' \
                   f'{group_by_str}' \
                   f'{window_str}' \
-                  f'{horizon_str}' \
-                  f'{using_str}'
+                  f'{using_str}{" " if using_str else ""}' \
+                  f'{horizon_str}'
 
         return out_str.strip()
 
